@@ -273,20 +273,27 @@ theorem Neo4jCBMGraph_get_matching_nodes_with_components_s0_value_dependent_coun
 theorem leaks_nil_of_value_free_atom (a : Atom) : a.vf = true → a.leaks = [] := by
   cases a <;> simp [Atom.vf, Atom.leaks]
 
+/-- which stored values each value-dependent call site writes into the statement text today (the known findings, per argument) -/
+def allowedLeaks : List (Text × Text) := [
+  (t!"Neo4jPropertyGraph.update_node_properties#0", t!"row.v"),
+  (t!"Neo4jPropertyGraph.update_link_properties#0", t!"row.v"),
+  (t!"Neo4jPropertyGraph.serialize_graph#0", t!"graph_id"),
+  (t!"Neo4jPropertyGraph.serialize_graph#1", t!"graph_id"),
+  (t!"Neo4jPropertyGraph.add_node#0", t!"graph_id"), (t!"Neo4jPropertyGraph.add_node#0", t!"node_id"),
+  (t!"Neo4jPropertyGraph.add_node#0", t!"row.v"),
+  (t!"Neo4jPropertyGraph.add_link#0", t!"row.v"),
+  (t!"Neo4jCBMGraph.get_matching_nodes_with_components#0", t!"row.v"),
+  (t!"Neo4jCBMGraph.get_matching_nodes_with_components#0", t!"row.resource_model") ]
+
 set_option maxRecDepth 100000 in
 /-- Exactly which stored values each value-dependent call site writes into the statement text.  The known findings are keyed by
-call site, so this table is what keeps a *further* value leaking into an already listed statement from going unnoticed:
-`node_id`, `node_a`, `node_b`, `graphId`s … of these sites stay parameters. -/
+call site and argument, and this table is what keeps a *further* value leaking into an already listed statement from going
+unnoticed: EVERY variant of a listed call site leaks at most the listed values (`node_id`, `node_a`, `node_b`, `graphId`s … of these
+sites stay parameters), and every listed value is still leaked by some variant.  (Stated over the set of variants, so that a
+rewrite that merely adds a branch or reorders branches does not disturb it.) -/
 theorem leaked_values_exact :
-    (ops.filter (fun op => valueDependentKeys.contains op.key)).map (fun op => (op.key, op.variant, leaks op.tpl)) =
-    [ (t!"Neo4jPropertyGraph.update_node_properties#0", 0, [t!"row.v"]),
-      (t!"Neo4jPropertyGraph.update_link_properties#0", 0, [t!"row.v"]),
-      (t!"Neo4jPropertyGraph.serialize_graph#0", 0, [t!"graph_id"]),
-      (t!"Neo4jPropertyGraph.serialize_graph#1", 0, [t!"graph_id"]),
-      (t!"Neo4jPropertyGraph.add_node#0", 0, [t!"graph_id", t!"node_id", t!"row.v"]),
-      (t!"Neo4jPropertyGraph.add_link#0", 0, [t!"row.v"]),
-      (t!"Neo4jCBMGraph.get_matching_nodes_with_components#0", 0, [t!"row.v"]),
-      (t!"Neo4jCBMGraph.get_matching_nodes_with_components#0", 1, [t!"row.v", t!"row.resource_model"]) ] := by decide +kernel
+    (∀ op ∈ ops, valueDependentKeys.contains op.key = true → ∀ x ∈ leaks op.tpl, allowedLeaks.contains (op.key, x) = true) ∧
+    (∀ kx ∈ allowedLeaks, ∃ op ∈ ops, op.key = kx.1 ∧ kx.2 ∈ leaks op.tpl) := by decide +kernel
 
 /-- GUARDED FORM of the full statement, valid for EVERY template (also those of the value-dependent call sites), for all
 values: the text depends on no stored value other than the ones the template leaks.  Together with `leaked_values_exact`:
